@@ -200,7 +200,7 @@ def tlc(module, cfg, specdir, env=None, workers="auto", timeout=1200, extra=None
     meta = os.path.join(BUILD, "tlc", "%s_%d" % (tag, os.getpid()))
     shutil.rmtree(meta, ignore_errors=True)
     os.makedirs(meta, exist_ok=True)
-    jopts = ["-XX:+UseParallelGC", "-Xss64m", "-Xmx" + heap]
+    jopts = ["-XX:+UseParallelGC", "-Xss64m", "-Xmx" + heap, "-Djava.io.tmpdir=" + meta]   # TLC's scratch directories stay in the metadir
     if deque:
         jopts.append("-Dtlc2.tool.queue.IStateQueue=StateDeque")
     for p in (props or []):
@@ -390,4 +390,9 @@ def workdir(pid):
     os.makedirs(d, exist_ok=True)
     if not os.environ.get("VERIF_KEEP_WORK"):
         atexit.register(shutil.rmtree, d, True)
+    # the library writes one log file per (trial, fold) of every fit into std::filesystem::temp_directory_path(): keep them in the scratch
+    # directory of the run (removed with it) instead of flooding /tmp
+    tmp = os.path.join(d, "tmp")
+    os.makedirs(tmp, exist_ok=True)
+    os.environ["TMPDIR"] = tmp
     return d
